@@ -26,11 +26,12 @@ Qed.
 
 (* the journal it leaves behind never makes a later command believe an operation is running *)
 Theorem abort_closes j i :
-  i_before i = false -> i_after i = false -> i_dry_run i = false -> i_exit_ok i = false ->
+  i_before i = false -> i_head_known i = true ->
+  i_after i = false -> i_dry_run i = false -> i_exit_ok i = false ->
   (length j + 1 < journal_cap)%nat ->
   has_active_start (i_kind i) (fst (step j i)) = false.
 Proof.
-  intros Hb Ha Hd He Hl. unfold step, pre. rewrite Hb. cbn [andb].
+  intros Hb Hk Ha Hd He Hl. unfold step, pre. rewrite Hb, Hk. cbn [andb].
   rewrite push_small by lia. unfold post. rewrite Ha, Hd, He. cbn [negb].
   destruct (i_kind i) eqn:K.
   - cbn [fst]. rewrite push_small by (cbn [length]; lia). cbn. reflexivity.
@@ -40,12 +41,13 @@ Qed.
 
 (* ---- a fresh operation that completes rewrites from its own starting head ---- *)
 Theorem complete_rewrites j i :
-  i_before i = false -> i_after i = false -> i_dry_run i = false -> i_exit_ok i = true ->
+  i_before i = false -> i_head_known i = true ->
+  i_after i = false -> i_dry_run i = false -> i_exit_ok i = true ->
   i_head_after i <> i_head i -> i_has_commits i = true ->
   (length j < journal_cap)%nat ->
   snd (step j i) = Rewrite (i_kind i) (i_head i).
 Proof.
-  intros Hb Ha Hd He Hn Hc Hl. unfold step, pre. rewrite Hb. cbn [andb].
+  intros Hb Hk Ha Hd He Hn Hc Hl. unfold step, pre. rewrite Hb, Hk. cbn [andb].
   rewrite push_small by lia. unfold post. rewrite Ha, Hd, He, Hc. cbn [negb].
   assert (E : (i_head i =? i_head_after i) = false) by (apply N.eqb_neq; congruence).
   destruct (i_kind i); cbn [find_start kind_eqb]; rewrite E; reflexivity.
@@ -136,7 +138,7 @@ Proof.
 Qed.
 
 (* ---- the cap can cut a running operation's Start out of the journal ---- *)
-Definition overflow_inv : inv := mkInv Rebase 7 8 true true false true false.
+Definition overflow_inv : inv := mkInv Rebase 7 8 true true false true false true.
 
 (* after journal_cap unrelated events the Start (original head 1) is gone: the finishing
    --continue is taken for a new operation and rewrites from the wrong head (7) *)
@@ -146,9 +148,47 @@ Proof. vm_compute. reflexivity. Qed.
 
 (* non-vacuity: a rebase that stops twice and is then finished *)
 Definition wit_mids : list (nat * inv) :=
-  [(2%nat, mkInv Rebase 9 9 true true true false false); (0%nat, mkInv Rebase 9 9 true true true false false)].
-Definition wit_fin : inv := mkInv Rebase 9 10 true true false true false.
+  [(2%nat, mkInv Rebase 9 9 true true true false false true); (0%nat, mkInv Rebase 9 9 true true true false false true)].
+Definition wit_fin : inv := mkInv Rebase 9 10 true true false true false true.
 
 Lemma wit_continue :
   snd (run [EStart Rebase 5; EOther] (wit_mids ++ [(1%nat, wit_fin)])) = [NoEffect; NoEffect; Rewrite Rebase 5].
 Proof. vm_compute. reflexivity. Qed.
+
+(* ---- an operation whose Start could not be recorded (HEAD did not resolve in the pre hook) ---- *)
+
+Lemma no_active_no_start k : forall j,
+  has_active_start k j = false -> find_start k j = None.
+Proof.
+  change post_uses_active_start with true.
+  induction j as [|e j IH]; intro H; [reflexivity|].
+  destruct e as [k' o|k' o|k' o|]; cbn [has_active_start find_start andb] in *.
+  - destruct (kind_eqb k k'); [discriminate|apply IH, H].
+  - destruct (kind_eqb k k'); [reflexivity|apply IH, H].
+  - destruct (kind_eqb k k'); [reflexivity|apply IH, H].
+  - apply IH, H.
+Qed.
+
+(* ... never reuses the Start of an earlier, finished operation: no note is rewritten and the journal
+   is left as it was *)
+Theorem unrecorded_start_inert j i :
+  i_before i = false -> i_head_known i = false -> has_active_start (i_kind i) j = false ->
+  step j i = (j, NoEffect).
+Proof.
+  intros Hb Hk Hn. unfold step, pre. rewrite Hb, Hk. cbn [andb]. unfold post.
+  destruct (i_after i); [reflexivity|]. destruct (i_dry_run i); [reflexivity|].
+  rewrite (no_active_no_start _ _ Hn).
+  destruct (i_exit_ok i); reflexivity.
+Qed.
+
+(* the look-up as it was before the repair would have rewritten from the old operation's head: an
+   earlier cherry-pick started at head 3 and completed; commits were made; a new cherry-pick whose
+   pre hook could not resolve HEAD ends at head 9 *)
+Definition stale_journal : journal := [EOther; EOther; EComplete CherryPick 3; EStart CherryPick 3].
+Definition stale_inv : inv := mkInv CherryPick 8 9 true false false true false false.
+
+Lemma stale_start_old_lookup :
+  find_newest_start CherryPick stale_journal = Some 3 /\
+  find_start CherryPick stale_journal = None /\
+  step stale_journal stale_inv = (stale_journal, NoEffect).
+Proof. vm_compute. repeat split. Qed.
